@@ -159,6 +159,31 @@ theorem enumeration_2_32_unencodable (tag : Nat) :
   refine ⟨by decide, ?_⟩
   simp [pyEncode, pyLength, pyValue, packUnsigned, Except.map]
 
+/-- **Re-encoding a decoded primitive reproduces the bytes, except** a TextString whose length is a multiple
+of 8 (0, 8, 16, …): the decoded object keeps `padding_length = 8` and writes eight extra zero bytes. -/
+theorem prim_reencode_decoded_iff (tag : Nat) (v : PyVal) (h : v.encodable) :
+    pyReencode tag v = pyEncode tag v ↔ ¬ ∃ cps, v = .textString cps ∧ cps.length % 8 = 0 := by
+  cases v with
+  | textString cps =>
+    rw [pyEncode_eq tag _ h]
+    simp only [pyReencode, PyVal.textString.injEq, exists_eq_left']
+    by_cases h8 : cps.length % 8 = 0
+    · simp only [h8, if_true, not_true, iff_false]
+      rw [pyEncode_eq tag _ h]
+      simp only [Except.map, Except.ok.injEq]
+      intro hc
+      have := congrArg List.length hc
+      simp [zeros] at this
+    · simp only [h8, if_false, not_false_iff, iff_true]
+      exact pyEncode_eq tag _ h
+  | _ => simp [pyReencode]
+
+/-- e.g. the empty text: written as 8 bytes by the constructor-made object, as 16 by the decoded one -/
+theorem textString_reencode_witness :
+    pyEncode 0x420055 (.textString []) = .ok [0x42, 0x00, 0x55, 7, 0, 0, 0, 0] ∧
+    pyReencode 0x420055 (.textString []) = .ok [0x42, 0x00, 0x55, 7, 0, 0, 0, 0, 0, 0, 0, 0, 0, 0, 0, 0] := by
+  constructor <;> rfl
+
 /-! ### M1: item trees of any size and nesting -/
 
 /-- **Item round trip.**  For every valid item and any bytes after it, the strict decoder (with fuel at least
